@@ -586,6 +586,7 @@ def build_workflow(spec):
     for sp in spec["steps"]:
         consumed.update(sp.get("in", []))
     ns = {}
+    base_ns = {}
     late = []
     for sp in spec["steps"]:
         name = sp["name"]
@@ -624,9 +625,23 @@ def build_workflow(spec):
             fn = step(num_workers=sp.get("nw", 1), retry_policy=pol)(fn)
         if sp.get("late"):
             late.append(fn)
+        elif name in (spec.get("inherit_only") or []):
+            base_ns[name] = fn   # defined by the base class only: the program class inherits it as is
         else:
             ns[name] = fn
-    cls = types.new_class("VfProgram", (Workflow,), {}, lambda d: d.update(ns))
+            if name in (spec.get("inherit") or []) and not is_handler:
+                # the base class declares the same step with ANOTHER configuration (more workers, no retry policy); the program
+                # class overrides it, and the override's configuration is the one that counts
+                bfn = make(sp)
+                bfn.__name__ = name
+                bfn.__qualname__ = f"VfBase.{name}"
+                bfn.__annotations__ = dict(fn.__annotations__) if hasattr(fn, "__annotations__") else {}
+                bfn.__annotations__ = {"ctx": (Context[VfState] if spec.get("typed_state") else Context), "ev": _union(in_types), "return": _union(ret_types)}
+                base_ns[name] = step(num_workers=sp.get("nw", 1) + 2, retry_policy=None)(bfn)
+    base = Workflow
+    if base_ns:
+        base = types.new_class("VfBase", (Workflow,), {}, lambda d: d.update(base_ns))
+    cls = types.new_class("VfProgram", (base,), {}, lambda d: d.update(ns))
     cls._vf_late = late
     return cls
 
